@@ -182,8 +182,8 @@ def ops_namespace(root=None) -> Dict[str, Any]:
         return _seq(s)[0] if not isinstance(s, types.GeneratorType) else next(s)
 
     def _fold(s):
-        "the folds (len / Count / Sum / Aggregate) also range over a tuple built from a sequence: len(tuple(...))"
-        return s if isinstance(s, tuple) else _seq(s)
+        "the folds (len / Count / Sum / Aggregate) also range over a tuple, set or dict built from a sequence"
+        return s if isinstance(s, (tuple, set, frozenset, dict)) else _seq(s)
 
     def Count(s):
         return len(_fold(s)) if not isinstance(s, types.GeneratorType) else len(list(s))
@@ -204,7 +204,7 @@ def ops_namespace(root=None) -> Dict[str, Any]:
 
     ns = {"Select": Select, "Where": Where, "SelectMany": SelectMany, "First": First, "Count": Count,
           "len": Count, "Sum": Sum, "Aggregate": Aggregate, "MetaData": MetaData, "abs": abs,
-          "sum": sum, "any": any, "all": all, "list": list, "tuple": tuple,
+          "sum": sum, "any": any, "all": all, "list": list, "tuple": tuple, "sorted": sorted,
           "ResultAwkwardArray": lambda s, cols: Term("ResultAwkwardArray", s, cols),
           "ResultPandasDF": lambda s, cols: Term("ResultPandasDF", s, cols),
           "ResultTTree": lambda s, cols, tree, fname: Term("ResultTTree", s, cols, tree, fname),
@@ -559,8 +559,15 @@ def make_data(mod, rng: random.Random, n: int = 6) -> List[list]:
                          [jet() for _ in range(rng.randrange(0, 4))], [trk() for _ in range(rng.randrange(0, 3))])
 
     out = [[], [mod.Event(next(counter), 1, 2, "a", [], [])]]
-    for k in range(n - 2):
+    for k in range(n - 3):
         out.append([event() for _ in range(rng.randrange(1, 4) if k else 1)])
+    # a dataset with repeated values in every projected field (set / dict comprehensions de-duplicate)
+    def twins(make, m):
+        return [make() for _ in range(m)]
+    a, b = rng.randrange(1, 6), rng.randrange(0, 4)
+    out.append([mod.Event(next(counter), a, b, "b",
+                          twins(lambda: mod.Jet(next(counter), a, b, "a", twins(lambda: mod.Trk(next(counter), b, a, "c"), 2)), 4),
+                          twins(lambda: mod.Trk(next(counter), a, b, "a"), 3)) for _ in range(2)])
     return out
 
 
@@ -932,7 +939,15 @@ class ProgGen:
         r = self.r
         if d <= 0:
             return self.int_leaf(env)
-        k = r.randrange(16)
+        k = r.randrange(17)
+        if k == 16:
+            sc = self.set_comp(env)
+            if sc is not None:
+                form = r.choice(["len", "len", "sum", "len-dict"])
+                self.p.features.add("setcomp:" + form)
+                if form == "len-dict":
+                    return "len({%s: %s %s})" % (sc[0], r.choice(["1", sc[0]]), sc[1])
+                return "%s({%s %s})" % ("len" if form == "len" else "sum", sc[0], sc[1])
         if k < 4:
             return "(%s %s %s)" % (self.int_expr(env, d - 1), r.choice(["+", "-", "*", "+"]), self.int_expr(env, d - 1))
         if k == 4:
@@ -1145,6 +1160,19 @@ class ProgGen:
             return None
         return "%s for %s in %s%s" % (elt, b, src, cond)
 
+    def set_comp(self, env) -> Optional[Tuple[str, str]]:
+        """(element, `for b in seq [if c]`) of a set / dict comprehension whose element takes few distinct values"""
+        r = self.r
+        ch = self.seq_elt_choices(env)
+        if not ch:
+            return None
+        rec, e = r.choice(ch)
+        b = self.binder(env)
+        env2 = env + [(b, REC(e))]
+        elt = r.choice(["%s.a" % b, "%s.b" % b, "(%s.a + %s.b)" % (b, b), self.int_leaf(env2), self.int_leaf(env2)])
+        cond = (" if %s" % self.bool_expr(env2, 0)) if r.random() < 0.3 else ""
+        return elt, "for %s in %s%s" % (b, self.seq_source(rec, e), cond)
+
     def genexp_record_type(self, env):
         r = self.r
         ctor = r.choice(["P2", "N2", "R3", "R5", "R6"])
@@ -1161,6 +1189,11 @@ class ProgGen:
         ch = self.seq_elt_choices(env)
         if not ch:
             return None
+        if elt_t == INT and r.random() < 0.15:
+            sc = self.set_comp(env)
+            if sc is not None:
+                self.p.features.add("setcomp:sorted")
+                return "sorted({%s %s})" % sc
         if self.mode == "callable" and r.random() < 0.3:
             g = self.genexp(elt_t, env, d)
             if g is not None:
